@@ -594,6 +594,61 @@ def liststruct_stream(sh, backend, n, mech_fn):
     else: sh.count("list_of_struct_port_designs_cosimulated"); sh.count("liststruct:" + how)
 
 
+def gen_wrapstruct_design(rng):
+  """a struct that WRAPS another one and is exactly as wide (its only field is the inner struct), class names in either
+  alphabetical order, as port type; beside it a wrapper with a second field.  The text has to define every type before it uses it"""
+  wn, inn = rng.choice([("AEnv", "ZPay"), ("ZEnv", "APay"), ("Env", "Env_body"), ("M", "N")])
+  two = rng.random() < 0.3
+  L = ["from pymtl3 import *", "@bitstruct", f"class {inn}:", "  hi: Bits4", "  lo: Bits4",
+       "@bitstruct", f"class {wn}:", f"  body: {inn}"] + (["  tag: Bits2"] if two else []) + \
+      ["class WSTop(Component):", "  def construct(s):", f"    s.in_ = InPort({wn}); s.out = OutPort({wn}); s.lo = OutPort(4)"]
+  how = rng.choice(["connect", "block"])
+  if how == "connect": L += ["    s.out //= s.in_", "    s.lo //= s.in_.body.lo"]
+  else: L += ["    @update", "    def up():", "      s.out @= s.in_", "      s.lo @= s.in_.body.lo"]
+  return "\n".join(L) + "\n", ("two-fields" if two else "one-field") + ":" + ("wrapper-sorts-first" if wn < inn else "inner-sorts-first")
+
+
+def wrapstruct_stream(sh, backend, n, mech_fn):
+  for case in range(n):
+    rng = sh.rng("wrapstruct", case)
+    src, how = gen_wrapstruct_design(rng)
+    before = sh.counters.get("rejected_by_translator", 0)
+    directed(sh, backend, f"wrapstruct-{case}", src, "WSTop", mech_fn)
+    if sh.counters.get("rejected_by_translator", 0) > before: sh.count("wrapper_struct_designs_refused")
+    else: sh.count("wrapper_struct_designs_cosimulated"); sh.count("wrapstruct:" + how)
+
+
+def gen_ifcportlist_design(rng):
+  """an interface that is NOT in a list and holds LISTS of plain vector ports (and a scalar member beside them), alone or next to a
+  list of such interfaces; the blocks read and write the port lists element by element and in a loop"""
+  n = rng.randrange(2, 4); w = rng.choice([1, 4, 8])
+  also_list = rng.random() < 0.4
+  L = ["from pymtl3 import *", "class PLIfc(Interface):", "  def construct(s):",
+       f"    s.data = [InPort({w}) for _ in range({n})]; s.res = [OutPort({w}) for _ in range({n})]; s.en = InPort(1)",
+       "class PLTop(Component):", "  def construct(s):", "    s.bus = PLIfc()"]
+  if also_list: L.append("    s.more = [PLIfc() for _ in range(2)]")
+  how = rng.choice(["loop", "each", "connect"])
+  if how == "connect":
+    L += [f"    s.bus.res[{i}] //= s.bus.data[{(i + 1) % n}]" for i in range(n)]
+  else:
+    L += ["    @update", "    def up_bus():"]
+    if how == "loop": L += [f"      for i in range({n}):", "        s.bus.res[i] @= s.bus.data[i] + 1 if s.bus.en else s.bus.data[i]"]
+    else: L += [f"      s.bus.res[{i}] @= s.bus.data[{n - 1 - i}] ^ {i + 1 & ((1 << w) - 1)}" for i in range(n)]
+  if also_list:
+    L += ["    @update", "    def up_more():", "      for k in range(2):", f"        for i in range({n}):", "          s.more[k].res[i] @= s.more[k].data[i] & s.bus.data[0]"]
+  return "\n".join(L) + "\n", how + (":with-ifc-list" if also_list else "")
+
+
+def ifcportlist_stream(sh, backend, n, mech_fn):
+  for case in range(n):
+    rng = sh.rng("ifcportlist", case)
+    src, how = gen_ifcportlist_design(rng)
+    before = sh.counters.get("rejected_by_translator", 0)
+    directed(sh, backend, f"ifcportlist-{case}", src, "PLTop", mech_fn)
+    if sh.counters.get("rejected_by_translator", 0) > before: sh.count("ifc_port_list_designs_refused")
+    else: sh.count("ifc_port_list_designs_cosimulated"); sh.count("ifcportlist:" + how)
+
+
 def localname_stream(sh, backend, n, mech_fn):
   for case in range(n):
     rng = sh.rng("localname", case)
